@@ -50,7 +50,7 @@ SENT = -7.25e30
 M = 3
 BOXES = [2000.0, 1.0, 500.0, 7373.37, 1e-3, 296.0, 1e5, 1100.0]
 VELZ = [1234.5, 1.0, 2000.0, 98765.4321, 1e-2, 300.0, 1e5, 41.5]
-_counts = {'records_decoded': 0, 'particles_compared': 0}
+_counts = {'records_decoded': 0, 'particles_compared': 0, 'history_rechecks': 0}
 
 
 def extra_evidence():
@@ -83,7 +83,7 @@ def exhaustive(tier, shard, nshards):
 _f12 = st.one_of(st.sampled_from([0, 1, 15, 16, 47, 48, 49, 255, 256, 1048, 2047, 2048, 2049, 3048, 3840, 4079, 4080, 4095, 0x555, 0xAAA, 0xF0F, 0x0F0]), st.integers(0, 4095))
 _byte = st.one_of(st.sampled_from([0x00, 0x0F, 0xF0, 0xFF, 0xAA, 0x55, 0x80, 0x7F, 0x01, 0x10, 0xFE]), st.integers(0, 255))
 _dtype = st.sampled_from(['float32', 'float64'])
-_outmode = st.sampled_from(['none', 'none', 'false', 'arr', 'strided'])
+_outmode = st.sampled_from(['none', 'none', 'false', 'arr', 'strided', 'tight'])
 _box = st.one_of(st.sampled_from(BOXES), st.floats(1e-3, 1e5, allow_nan=False, allow_infinity=False))
 _velz = st.one_of(st.sampled_from(VELZ), st.floats(1e-2, 1e5, allow_nan=False, allow_infinity=False))
 
@@ -271,6 +271,11 @@ def _decode_and_check(recs, box, velz, dtype, posmode, velmode, storage, what, t
             buf = np.full((nrec + 2 * M, 3), SENT, dtype=dtype)
             bufs[name] = buf
             kw[name + 'out'] = buf[M : M + nrec]
+        elif mode == 'tight':
+            # a supplied output with exactly one row per particle (fewer rows than records when the stream has headers)
+            buf = np.full((n + 2 * M, 3), SENT, dtype=dtype)
+            bufs[name] = buf
+            kw[name + 'out'] = buf[M : M + n]
         elif mode == 'strided':
             # a non-contiguous (nrec,3) view: one half of an (nrec,6) phase-space block
             buf = np.full((nrec + 2 * M, 6), SENT, dtype=dtype)
@@ -306,6 +311,13 @@ def _decode_and_check(recs, box, velz, dtype, posmode, velmode, storage, what, t
             if not (np.all(buf[:M] == SENT) and np.all(buf[M + nrec :] == SENT) and np.all(other == SENT) and np.all(mine[n:] == SENT)):
                 raise Violation('pack9-canary', '%s: wrote outside the supplied (strided) output' % w)
             outs[name] = np.ascontiguousarray(mine[:n])
+        elif mode == 'tight':
+            if isinstance(ret[k], np.ndarray) or int(ret[k]) != n:
+                raise Violation('pack9-count', '%s: supplied output with one row per particle, returned count %r, the stream has %d non-header records out of %d' % (w, ret[k], n, nrec))
+            buf = bufs[name]
+            if not (np.all(buf[:M] == SENT) and np.all(buf[M + n :] == SENT)):
+                raise Violation('pack9-canary', '%s: wrote outside the supplied output' % w)
+            outs[name] = buf[M : M + n]
         elif mode == 'arr':
             if isinstance(ret[k], np.ndarray) or int(ret[k]) != n:
                 raise Violation('pack9-count', '%s: supplied output, returned count %r, the stream has %d non-header records out of %d' % (w, ret[k], n, nrec))
@@ -328,6 +340,19 @@ def _decode_and_check(recs, box, velz, dtype, posmode, velmode, storage, what, t
             _cmp(outs['pos'], pt, pq + ptol + 16 * D.feps(np.float64) * info['pos_scale'], 'pack9-roundtrip-pos', what + ' round-trip pos')
         if 'vel' in outs:
             _cmp(outs['vel'], vt, vq + vtol + 16 * D.feps(np.float64) * np.abs(vt), 'pack9-roundtrip-vel', what + ' round-trip vel')
+    # history: a result handed back by an earlier call stays the decode of *its* stream when another stream of the same
+    # length and float type is decoded afterwards (package-allocated outputs must not be shared between calls)
+    mine = [(name, outs[name]) for name, mode in (('pos', posmode), ('vel', velmode)) if mode == 'none']
+    if mine and nrec:
+        snap = [(name, a, a.copy()) for name, a in mine]
+        other = recs.copy()
+        part = other[:, 0] != 0xFF
+        other[part, 1:] ^= 0x5A
+        call_repo(pack9.unpack_pack9, other, box, velz, float_dtype=dtype)
+        for name, a, c in snap:
+            if not np.array_equal(a, c, equal_nan=True):
+                raise Violation('pack9-result-aliased', '%s %s: the array returned earlier changed when a second stream of the same length was decoded' % (what, name))
+        _counts['history_rechecks'] += 1
     _counts['records_decoded'] += nrec
     _counts['particles_compared'] += int(defined.sum()) * len(outs)
 
